@@ -188,6 +188,9 @@ def query_traversal(node, callback, is_table=False, is_target=False, parent_quer
             node_out = query_traversal(arg, callback, parent_query=parent_query) or arg
             array.append(node_out)
         node.args = array
+        if isinstance(node, (ast.Exists, ast.NotExists)):
+            # the subquery is also kept in `query` (used by the renderer): follow a replacement
+            node.query = node.args[0]
         if isinstance(node, ast.Function) and node.from_arg is not None:
             node_out = query_traversal(node.from_arg, callback, parent_query=parent_query)
             if node_out is not None:
